@@ -377,6 +377,17 @@ pub fn check_case(c: &FCase, rec: &mut Rec) -> Verdict {
                 return Verdict::fail(format!("C07:grid-filter-first:{ks}"), format!("filter `{text}`: first match differs"));
             }
             rec.class("grid:filter_all-compared");
+            // the same rows twice over (a grid may hold equal rows, and rows that share an `id`): every selected row
+            // is selected each time it occurs, in order
+            let doubled: Vec<Dict> = c.records.iter().chain(c.records.iter()).map(build_dict).collect();
+            let grid2 = Grid::make_from_dicts(doubled);
+            let all2 = grid2.filter_all(&lib).len();
+            if all2 != 2 * want.len() {
+                return Verdict::fail(
+                    format!("C07:grid-filter_all:repeated-rows:{ks}"),
+                    format!("filter `{text}`: of a grid holding each of {} rows twice filter_all returns {all2} rows, the semantics select {}", c.records.len(), 2 * want.len()),
+                );
+            }
         }
         // through the parser as well (classified separately; the parser itself is C08's business)
         let (spaced, _) = print(&c.filter, &c.choices);
